@@ -19,23 +19,33 @@ Record case := mkCase {
   c_id : N;
   c_smac : bytes;
   c_me : ip;
+  c_hops : list (ip * bytes);   (* peers reached through a gateway: the hardware address of the next hop
+                                   (first route containing the peer, as configured by the harness) *)
   c_ops : list op;
   c_obs : list sobs
 }.
 
+(* hardware address a frame for peer [a] must carry: the peer's own (it has an ARP entry) unless
+   the case routes it through a gateway *)
+Definition hop (hops : list (ip * bytes)) (a : ip) : bytes :=
+  match find (fun h => eqb_bytes (fst h) a) hops with
+  | Some (_, m) => m
+  | None => mac_of a
+  end.
+
 (* ---- model run ---- *)
-Fixpoint run (me : ip) (smac : bytes) (t : table) (ops : list op) : list sobs :=
+Fixpoint run (hops : list (ip * bytes)) (me : ip) (smac : bytes) (t : table) (ops : list op) : list sobs :=
   match ops with
   | [] => []
   | OSeg g fr :: r =>
       let res := handle_tcp (fun a => ip_eqb a me) t fr g in
-      mkSObs (map (fun o => frame_bytes (mac_of (o_dip o)) smac o) (r_out res)) None :: run me smac (r_tbl res) r
+      mkSObs (map (fun o => frame_bytes (hop hops (o_dip o)) smac o) (r_out res)) None :: run hops me smac (r_tbl res) r
   | OReader k :: r =>
       match reader_step t k with
       | Some (t', o, payload, c) =>
-          mkSObs [frame_bytes (mac_of (o_dip o)) smac o] (Some (mkEv (c_sip c) (c_dip c) (c_sport c) (c_dport c) payload))
-            :: run me smac t' r
-      | None => mkSObs [] None :: run me smac t r
+          mkSObs [frame_bytes (hop hops (o_dip o)) smac o] (Some (mkEv (c_sip c) (c_dip c) (c_sport c) (c_dport c) payload))
+            :: run hops me smac t' r
+      | None => mkSObs [] None :: run hops me smac t r
       end
   end.
 
@@ -58,7 +68,7 @@ Definition sobs_eqb (a b : sobs) : bool :=
   | _, _ => false
   end.
 
-Definition model_obs (c : case) : list sobs := run (c_me c) (c_smac c) [] (c_ops c).
+Definition model_obs (c : case) : list sobs := run (c_hops c) (c_me c) (c_smac c) [] (c_ops c).
 
 Definition mismatches (cs : list case) : list N :=
   map c_id (filter (fun c => negb (list_eqb sobs_eqb (model_obs c) (c_obs c))) cs).
@@ -98,12 +108,12 @@ Definition SIG_DATA := 9%N.        (* data on an established connection got no a
 Definition SIG_NOEVENT := 10%N.    (* an established connection that pushed data or closed was never reported *)
 
 (* every frame emitted in answer to segment g *)
-Definition frame_sig (g : seg) (fr : bytes) : N :=
+Definition frame_sig (hops : list (ip * bytes)) (g : seg) (fr : bytes) : N :=
   let v := view fr in
   if negb (f_ok v) then SIG_MALFORMED
   else if negb (f_ipsum_ok v && f_tcpsum_ok v) then SIG_CHECKSUM
   else if negb (ip_eqb (f_sip v) (g_dip g) && ip_eqb (f_dip v) (g_sip g) &&
-                (f_sport v =? g_dport g) && (f_dport v =? g_sport g) && eqb_bytes (f_dmac v) (mac_of (g_sip g)))
+                (f_sport v =? g_dport g) && (f_dport v =? g_sport g) && eqb_bytes (f_dmac v) (hop hops (g_sip g)))
        then SIG_ADDRESS
   else if hasf (g_flags g) SYN && negb (hasf (g_flags g) ACK) then
          (if (f_flags v =? SYN + ACK) && (f_ack v =? u32 (g_seq g + 1)) then 0 else SIG_SYNACK)
@@ -203,11 +213,11 @@ Definition report_due (seen : list (op * sobs)) (g : seg) : bool :=
   negb (hasf (g_flags g) RST) && negb (decoded_port (g_dport g)) &&
   match fold_left (cstep g) seen CNone with CEst => true | _ => false end.
 
-Fixpoint ops_sig (seen : list (op * sobs)) (ops : list op) (obs : list sobs) : N :=
+Fixpoint ops_sig (hops : list (ip * bytes)) (seen : list (op * sobs)) (ops : list op) (obs : list sobs) : N :=
   match ops, obs with
   | [], [] => 0
   | OSeg g fr :: r, so :: ro =>
-      let s := first_nz (map (frame_sig g) (so_frames so)) in
+      let s := first_nz (map (frame_sig hops g) (so_frames so)) in
       let s := if (s =? 0)%N then
                  (if hasf (g_flags g) SYN && negb (hasf (g_flags g) ACK) && negb (Nat.eqb (length (so_frames so)) 1)
                   then SIG_SYNACK else 0) else s in
@@ -216,7 +226,7 @@ Fixpoint ops_sig (seen : list (op * sobs)) (ops : list op) (obs : list sobs) : N
       let s := if (s =? 0)%N then
                  (if report_due seen g && negb (reported g (map snd seen) || reported g ro) then SIG_NOEVENT else 0)
                else s in
-      if (s =? 0)%N then ops_sig (seen ++ [(OSeg g fr, so)]) r ro else s
+      if (s =? 0)%N then ops_sig hops (seen ++ [(OSeg g fr, so)]) r ro else s
   | OReader k :: r, so :: ro =>
       let s := first_nz (map reader_frame_sig (so_frames so)) in
       let s := if (s =? 0)%N then
@@ -224,18 +234,18 @@ Fixpoint ops_sig (seen : list (op * sobs)) (ops : list op) (obs : list sobs) : N
                  | Some e => if is_prefix (e_payload e) (stream_of (map fst seen) e) then 0 else SIG_EVENT
                  | None => 0
                  end else s in
-      if (s =? 0)%N then ops_sig (seen ++ [(OReader k, so)]) r ro else s
+      if (s =? 0)%N then ops_sig hops (seen ++ [(OReader k, so)]) r ro else s
   | _, _ => SIG_MALFORMED
   end%N.
 
 Definition case_sig (c : case) : N :=
-  let s := ops_sig [] (c_ops c) (c_obs c) in
+  let s := ops_sig (c_hops c) [] (c_ops c) (c_obs c) in
   if (s =? 0)%N then
     (if list_eqb sobs_eqb (model_obs c) (c_obs c) then 0 else SIG_MODEL)
   else s.
 
 Definition violations (cs : list case) : list (N * N) :=
-  flat_map (fun c => let s := ops_sig [] (c_ops c) (c_obs c) in
+  flat_map (fun c => let s := ops_sig (c_hops c) [] (c_ops c) (c_obs c) in
                      if (s =? 0)%N then [] else [(c_id c, s)]) cs.
 
 (* tags: number of frames the model expects (non-trivial if > 0) *)
